@@ -1046,6 +1046,9 @@ class _TRSTractList:
         for obj in objects:
             if isinstance(obj, cls._ok_individuals):
                 into.append(obj)
+            elif isinstance(obj, str):
+                # A str iterates into more str's forever. Reject it.
+                cls._verify_individual(obj)
             elif isinstance(obj, cls):
                 # Other instances of this class have already been
                 # appropriately type-checked.
